@@ -1,7 +1,7 @@
 package signal
 
 import (
-	"strconv"
+	"reflect"
 )
 
 type (
@@ -23,16 +23,10 @@ func Alloc[T SignalTypes](a Allocator) *Buffer[T] {
 	}
 }
 
-// maxBitDebth returns a maximum bit debth for a given type, ie. 64 bits for int64 and uint64.
+// getBitDepth returns a bit depth for a given type, ie. 64 bits for int64 and uint64.
+// It is derived from the size of the type, so named types (type Sample int16)
+// get the bit depth of their underlying type.
 func getBitDepth[T SignalTypes]() BitDepth {
-	switch any(new(T)).(type) {
-	case *int8, *uint8:
-		return BitDepth8
-	case *int16, *uint16:
-		return BitDepth16
-	case *int32, *uint32, *float32:
-		return BitDepth32
-	default:
-		return strconv.IntSize
-	}
+	var v T
+	return BitDepth(reflect.TypeOf(v).Bits())
 }
